@@ -144,7 +144,7 @@ func (b *StscBox) Info(w io.Writer, specificBoxLevels, indent, indentStep string
 	if level >= 1 {
 		for i := range b.Entries {
 			bd.write(" - entry[%d]: firstChunk=%d samplesPerChunk=%d sampleDescriptionID=%d",
-				i+1, b.Entries[i].FirstChunk, b.Entries[i].SamplesPerChunk, b.GetSampleDescriptionID(i+1))
+				i+1, b.Entries[i].FirstChunk, b.Entries[i].SamplesPerChunk, b.GetSampleDescriptionID(int(b.Entries[i].FirstChunk)))
 		}
 	}
 	return bd.err
@@ -184,7 +184,12 @@ func (b *StscBox) GetSampleDescriptionID(chunkNr int) uint32 {
 	if b.singleSampleDescriptionID != 0 {
 		return b.singleSampleDescriptionID
 	}
-	return b.SampleDescriptionID[chunkNr-1]
+	// SampleDescriptionID holds one value per entry, not per chunk
+	entryNr := int(int32(b.findEntryNrForChunkNr(uint32(chunkNr))))
+	if entryNr < 0 || entryNr >= len(b.SampleDescriptionID) {
+		return 0 // chunkNr before the first entry (or a table whose first_chunk values are not ascending)
+	}
+	return b.SampleDescriptionID[entryNr]
 }
 
 // SetSingleSampleDescriptionID - use this for efficiency if all samples have same sample description
